@@ -1,7 +1,7 @@
 (* C03 - Every emitted RPU is well-formed and decodes to exactly what was written. *)
 From Coq Require Import List NArith ZArith Bool String.
-From DV Require Import Outcome Bits BitIO Fields Blocks Rpu Ops Tables FieldsProofs C03Proofs.
-From DVgen Require Import Blocks_gen DmData_gen Switches_gen.
+From DV Require Import Outcome Bits BitIO Fields Blocks Rpu Ops Tables FieldsProofs C03Proofs RpuRTExample DmWS DmWSExample HeaderWS.
+From DVgen Require Import Consts_gen Blocks_gen DmData_gen Switches_gen.
 Import ListNotations.
 Open Scope N_scope.
 
@@ -45,6 +45,72 @@ Proof. exact write_implies_counts. Qed.
 Theorem C03_write_block_no_panic : forall p b w s, write_block p b w = Panic s -> s = site_ue_write.
 Proof. exact write_block_panic_sites. Qed.
 
+(* ------------------------------------------------------------------------------------------
+   WRITE SOUNDNESS OF THE DISPLAY-MANAGEMENT PAYLOAD: whatever the writer emits for an extension
+   block / a container / the whole DM payload, the parser reads back as exactly what was held in
+   memory (length field = byte size of the level, values field for field, padding of
+   8 * bytes - required bits zeros, block count, alignment after the count), for every block list,
+   every level, every length of the variable-length levels and every following data.  The in-memory
+   state is assumed well typed (values within the Rust types of their fields, canonical L11 white
+   point / flag split, count = number of blocks: `block_canonical`, `container_ok`, `dm_ok`, all
+   decidable and met by every parsed sample).
+   ------------------------------------------------------------------------------------------ *)
+Theorem C03_block_write_sound : forall p v b w w' d,
+  write_block p b w = Ok w' -> desc_of (blevel b) = Some d -> block_canonical d b ->
+  mem (blevel b) (parse_levels v) = true -> mem (blevel b) (allowed v) = true ->
+  g_block_len_checked_parse = g_block_len_checked_write ->
+  exists bs, w' = wput w bs /\
+    reads (parse_block Debug v) bs
+          (mkBlk (blevel b) (blen b) (present_vals (b_parse d) (blen b) (bvals b)) (bflag b)).
+Proof. exact block_write_sound. Qed.
+
+Theorem C03_container_write_sound : forall p v c w w',
+  write_container p c w = Ok w' -> container_ok v c -> cnum c + 1 < two64 ->
+  g_block_len_checked_parse = g_block_len_checked_write -> g_blocks_alloc_clamped = true ->
+  exists bs, w' = wput w bs /\
+    forall rest pos, pos mod 8 = wpos w mod 8 ->
+      parse_container Debug v (mkR (bs ++ rest) pos)
+      = Ok (mkC (cnum c) (map canon_block (cblocks c)), mkR rest (pos + N.of_nat (List.length bs))).
+Proof. exact container_write_sound. Qed.
+
+(* the CM v4.0 container is looked for by the parser only when at least 56 bits follow the
+   CM v2.9 one: the statement says so, and the writer's guard on data before the CRC keeps the
+   emitted RPU on the right side of it *)
+Theorem C03_dm_write_sound : forall p h d w w',
+  write_dm p d w = Ok w' -> dm_ok h d ->
+  g_block_len_checked_parse = g_block_len_checked_write -> g_blocks_alloc_clamped = true ->
+  exists bs29 bs40, w' = wput w (bs29 ++ bs40) /\
+    forall rest pos, pos mod 8 = wpos w mod 8 ->
+      (match cmv40 d with
+       | Some _ => dm_data_payload2_min_bits <= N.of_nat (List.length (bs40 ++ rest))
+       | None => N.of_nat (List.length rest) < dm_data_payload2_min_bits
+       end) ->
+      parse_dm Debug h (mkR ((bs29 ++ bs40) ++ rest) pos)
+      = Ok (canon_dm d, mkR rest (pos + N.of_nat (List.length (bs29 ++ bs40)))).
+Proof. exact dm_write_sound. Qed.
+
+(* the header: whatever the writer emits for a canonical in-memory header (values within their
+   Rust types, derived and not-coded fields as the parser leaves them) is read back as that header *)
+Theorem C03_header_write_sound : forall p h w w',
+  write_header p h w = Ok w' -> header_canonical h ->
+  exists bs, w' = wput w bs /\ reads (parse_header Debug) bs h.
+Proof. exact header_write_sound. Qed.
+
+Theorem C03_switches_as_assumed :
+  g_block_len_checked_parse = g_block_len_checked_write /\ g_blocks_alloc_clamped = true.
+Proof. vm_compute. auto. Qed.
+
+Theorem C03_dm_ok_decidable : forall h d, dm_okb h d = true -> dm_ok h d.
+Proof. exact dm_okb_sound. Qed.
+
+Example C03_sample_dm_is_ok :
+  match parse_inner Debug src_sw fel_sample with
+  | Ok x => match rdm x with Some d => dm_okb (hdr x) d = true | None => False end
+  | _ => False
+  end.
+Proof. exact fel_sample_dm_ok. Qed.
+
 Print Assumptions C03_fields_write_sound.
+Print Assumptions C03_dm_write_sound.
 Print Assumptions C03_counts_enforced.
 Print Assumptions C03_write_block_no_panic.
